@@ -44,7 +44,7 @@ type Req struct {
 	CallMs   int    `json:"call_ms"`   // per-call timeout
 	BudgetMs int    `json:"budget_ms"` // per-engine budget for instantiate+calls
 	MaxCalls int    `json:"max_calls"`
-	Rot      int    `json:"rot"` // rotation of the export list
+	Rot      int    `json:"rot"`    // rotation of the export list
 	ASMiB    int    `json:"as_mib"` // soft RLIMIT_AS for this and later cases (0 = default 4096)
 }
 
@@ -118,10 +118,12 @@ func trimStack(b []byte) string {
 	lines := strings.Split(string(b), "\n")
 	var keep []string
 	for _, l := range lines {
-		if strings.Contains(l, "wazero/") && !strings.Contains(l, "verifharness") {
+		isFrame := strings.Contains(l, "wazero/") && !strings.Contains(l, "verifharness")
+		isLoc := strings.Contains(l, ".go:") && !strings.Contains(l, "/src/runtime/") && !strings.Contains(l, "/cmd/hc03/") && len(keep) > 0 && !strings.Contains(keep[len(keep)-1], ".go:")
+		if isFrame || isLoc {
 			keep = append(keep, strings.TrimSpace(l))
 		}
-		if len(keep) >= 8 {
+		if len(keep) >= 12 {
 			break
 		}
 	}
